@@ -280,7 +280,8 @@ class RewardOracle:
 
 REWARD_CORE = ("node-application-execute", "node-service-stop", "node-service-start", "node-file-delete", "node-file-repair",
                "node-shutdown", "node-startup", "router-acl-add-rule", "firewall-acl-add-rule", "node-application-remove",
-               "node-file-corrupt", "node-folder-restore", "host-nic-disable", "node-service-fix", "node-application-close")
+               "node-file-corrupt", "node-folder-restore", "host-nic-disable", "node-service-fix", "node-application-close",
+               "node-application-install")
 
 
 def plan(tier):
@@ -298,6 +299,12 @@ def plan(tier):
         else:
             P.append((v["name"], cfg, "bfs", dict(depth=1, budget=60000, variant=v)))  # every entry of the action map once
             P.append((v["name"], cfg, "dev", dict(H=9, k=1, core=True, core_names=REWARD_CORE, variant=v)))
+            # the watched application is used, removed and installed again (what a sticky component remembers across that)
+            P.append((v["name"] + "-reinstall", cfg, "dev", dict(
+                H=9, k=1, core=True, core_names=REWARD_CORE, variant=v,
+                script_hints=[("node-application-execute", "'application_name': 'web-browser'"),
+                              ("do-nothing", ""), ("node-application-remove", "'client_1'"), ("do-nothing", ""),
+                              ("node-application-install", "'client_1'")])))
     P.append(("data_manipulation", HE.SHIPPED["data_manipulation"], "dev", dict(H=40 if tier == "thorough" else 8, k=1, reset_seed=None,
                                                                              core=True, core_names=REWARD_CORE)))
     return P
